@@ -9,6 +9,7 @@ import (
 	"path/filepath"
 	"regexp"
 	"sort"
+	"strconv"
 	"strings"
 
 	"github.com/kaptinlin/gozod"
@@ -112,11 +113,25 @@ var formats = []format{
 	{name: "isodate", checkFn: "ISODate", mk: func() core.ZodSchema { return gozod.IsoDate() }, validate: validate.ISODate},
 	{name: "isodatetime", checkFn: "ISODateTime", mk: func() core.ZodSchema { return gozod.IsoDateTime() }, validate: validate.ISODateTime},
 	{name: "e164", checkFn: "E164", mk: func() core.ZodSchema { return gozod.E164() }, validate: validate.E164},
+	// the default IsoTime() (no options): checks.ISOTime, validator validate.ISOTime
+	{name: "isotime", checkFn: "ISOTime", mk: func() core.ZodSchema { return gozod.IsoTime() }, validate: validate.ISOTime},
 }
+
+// localRegex: package-level `name = regexp.MustCompile(<literal>)` variables of pkg/validate/validate.go (filled by scanSources);
+// a validator that matches one of them uses "regex.local:<name>".
+var localRegex = map[string]string{}
 
 // regexByName resolves the `regex.<Name>` selectors found in the source to the live objects.
 func regexByName(name string, f format) *regexp.Regexp {
 	delim := f.delim
+	if strings.HasPrefix(name, "local:") {
+		if src, ok := localRegex[strings.TrimPrefix(name, "local:")]; ok {
+			if re, err := regexp.Compile(src); err == nil {
+				return re
+			}
+		}
+		return nil
+	}
 	switch name {
 	case "Datetime":
 		if f.dtOpts != nil {
@@ -273,6 +288,34 @@ func scanSources(repo string) (map[string]srcInfo, error) {
 		return nil, err
 	}
 	cfn, vfn := funcDecls(cf), funcDecls(vf)
+	for k := range localRegex {
+		delete(localRegex, k)
+	}
+	for _, d := range vf.Decls { // var ( name = regexp.MustCompile(`...`) )
+		gd, ok := d.(*ast.GenDecl)
+		if !ok || gd.Tok != token.VAR {
+			continue
+		}
+		for _, sp := range gd.Specs {
+			vs, ok := sp.(*ast.ValueSpec)
+			if !ok || len(vs.Names) != 1 || len(vs.Values) != 1 {
+				continue
+			}
+			ce, ok := vs.Values[0].(*ast.CallExpr)
+			if !ok || len(ce.Args) != 1 {
+				continue
+			}
+			se, ok := ce.Fun.(*ast.SelectorExpr)
+			if !ok || se.Sel.Name != "MustCompile" {
+				continue
+			}
+			if bl, ok := ce.Args[0].(*ast.BasicLit); ok && bl.Kind == token.STRING {
+				if src, err := strconv.Unquote(bl.Value); err == nil {
+					localRegex[vs.Names[0].Name] = src
+				}
+			}
+		}
+	}
 	var usesOf func(name string, depth int, seen map[string]bool) []string
 	usesOf = func(name string, depth int, seen map[string]bool) []string {
 		fd := vfn[name]
@@ -289,6 +332,14 @@ func scanSources(repo string) (map[string]srcInfo, error) {
 				out = append(out, p+"."+s)
 			}
 		}
+		ast.Inspect(fd.Body, func(x ast.Node) bool { // package-level compiled patterns of pkg/validate
+			if id, ok := x.(*ast.Ident); ok {
+				if _, ok := localRegex[id.Name]; ok {
+					out = append(out, "regex.local:"+id.Name)
+				}
+			}
+			return true
+		})
 		for _, c := range localCalls(fd.Body) {
 			if c == "matchString" {
 				continue
